@@ -1,5 +1,6 @@
 import RF.Model.Proto
 import RF.Model.Comment
+import RF.Model.LexSpec
 /-!
 Line-protocol operations of C03 (`RF.Comment`).  Texts are hex strings (`-` = empty), lists of
 texts are `,`-joined (`_` = empty list), positions are byte offsets.
@@ -25,6 +26,13 @@ texts are `,`-joined (`_` = empty list), positions are byte offsets.
                                     order) / `commentsPreservedUnordered` (m: as multisets, index in sorted order)
   cm.words <o|m> <ins> <outs>     -> ok | missing:<index>:<word>          oracle `wordsPreserved` (o: the input's
                                     words are a subsequence of the output's) / `wordsPreservedUnordered` (m)
+  lex.check <kinds> <texts>       -> bad | quirk | flags
+        the tokens of a lexer run as tokens of `RF.LexSpec`: `kinds` has one letter per text:
+        `c` code characters, `l` line comment followed by a newline (text without it), `L` line
+        comment at the end of the input, `b` block comment, `s` string literal `"…"`, `r` raw string
+        `r#"…"#`, `h` character literal `'…'`.  `bad`: a text does not have the shape of its kind;
+        `quirk`: the token list is not well-formed (`LexSpec.WF`), i.e. one of the shapes excluded
+        from the agreement theorem; otherwise one `0|1` per character: `commentFlags`.
   cm.payloads <ins> <outs>       -> ok | diff | panic   equal `CommentReducer` payload, concatenated
 -/
 namespace RF.Driver.Comment
@@ -71,6 +79,45 @@ def allPayload (cs : List (List Char)) : Option (List Char) :=
   cs.foldr (fun c acc => match payload? c, acc with
     | some p, some r => some (p ++ r)
     | _, _ => none) (some [])
+
+/-- `text` of kind `k` as tokens of the specification; `none` = not of that shape. -/
+def specTokens (k : Char) (text : List Char) : Option (List LexSpec.Token) :=
+  match k with
+  | 'c' => some (text.map .code)
+  | 'l' | 'L' =>
+    match text with
+    | '/' :: '/' :: body => some [.lineComment body (k == 'l')]
+    | _ => none
+  | 'b' =>
+    match text with
+    | '/' :: '*' :: rest => some [.blockComment (LexSpec.scanEvents rest)]
+    | _ => none
+  | 's' =>
+    match text with
+    | '"' :: rest =>
+      if rest.getLast? == some '"' then some [.str (LexSpec.scanItems rest.dropLast)] else none
+    | _ => none
+  | 'r' =>
+    match text with
+    | 'r' :: rest =>
+      let n := (rest.takeWhile (· == '#')).length
+      match rest.drop n with
+      | '"' :: more =>
+        -- more = body ++ '"' :: hashes n
+        if more.length < n + 1 then none
+        else
+          let body := more.take (more.length - (n + 1))
+          if more.drop (more.length - (n + 1)) == '"' :: LexSpec.hashes n then some [.rawStr n body]
+          else none
+      | _ => none
+    | _ => none
+  | 'h' =>
+    match text with
+    | ['\'', c, '\''] => if c == '\\' then none else some [.chr c]
+    | '\'' :: '\\' :: e :: more =>
+      if more.getLast? == some '\'' then some [.chrEsc e more.dropLast] else none
+    | _ => none
+  | _ => none
 
 def handle (op : String) (args : List String) : Option String :=
   match op, args with
@@ -185,6 +232,20 @@ def handle (op : String) (args : List String) : Option String :=
         | none => pure "diff:?:-"
         | some (i, w) => pure s!"missing:{i}:{encChars w}"
     else none
+  | "lex.check", [ks, ts] => do
+    let texts ← decTexts ts
+    let kinds := ks.toList
+    if kinds.length != texts.length then none
+    else
+      match (kinds.zip texts).mapM (fun (k, t) => specTokens k t) with
+      | none => pure "bad"
+      | some tss =>
+        let toks := tss.flatten
+        -- the tokens must render to the text they were read from
+        let source := (kinds.zip texts).flatMap fun (k, t) => if k == 'l' then t ++ ['\n'] else t
+        if LexSpec.render toks != source then pure "bad"
+        else if !LexSpec.WF toks then pure "quirk"
+        else pure (String.ofList ((LexSpec.commentFlags toks).map fun b => if b then '1' else '0'))
   | "cm.payloads", [a, b] => do
     let a ← decTexts a
     let b ← decTexts b
